@@ -61,3 +61,59 @@ def crc_bit_errors():
             if bytes(crc24_ble(bytes(p[:-3]))) == bytes(p[-3:]) and len(fails) < 5:
                 fails.append({"flipped_bits": [i, j]})
     return {"name": "crc_bit_errors", "bound": "all single and double bit flips of one 26-byte packet", "evaluations": n, "failures": fails}
+
+
+def dhcp_json_roundtrip():
+    """C16, JSON persistence (json / the file system are outside the verified subset): save_dhcp() then
+    load_dhcp() into an empty table reproduces the leases; into a CHANGED table keeps D (no two IDs on
+    one address) and installs every saved lease.  Seeded-random D-tables; the binary format is proved."""
+    import os
+    import random
+    import tempfile
+    from circuitpython_nrf24l01.rf24_mesh import RF24Mesh
+    rnd = random.Random(int(os.environ.get("VERIF_SEED", "1")))
+    valid = [a for a in range(1, 0o5556) if all(1 <= ((a >> (3 * k)) & 7) <= 5 for k in range(len(oct(a)) - 2)) and a != 0o4444]
+
+    def table():
+        n = rnd.randint(0, 6)
+        ids = rnd.sample(range(1, 256), n)
+        addrs = rnd.sample(valid[:40] if rnd.random() < 0.7 else valid, n)   # small pool: collisions between tables are common
+        return dict(zip(ids, addrs))
+
+    def mesh(d):
+        m = object.__new__(RF24Mesh)
+        m.dhcp_dict = dict(d)
+        return m
+
+    def d_ok(d):
+        vals = list(d.values())
+        return len(set(vals)) == len(vals)
+    fails = []
+    n = 0
+    tmp = tempfile.mkdtemp(prefix="verif_dhcp_")
+    path = os.path.join(tmp, "dhcp.json")
+    try:
+        for _ in range(1500):
+            saved = table()
+            mesh(saved).save_dhcp(path, as_bin=False)
+            a = mesh({})
+            a.load_dhcp(path, as_bin=False)
+            other = table()
+            b = mesh(other)
+            b.load_dhcp(path, as_bin=False)
+            n += 2
+            bad = None
+            if a.dhcp_dict != saved:
+                bad = {"saved": saved, "loaded_into_empty": a.dhcp_dict}
+            elif not d_ok(b.dhcp_dict) or any(b.dhcp_dict.get(k) != v for k, v in saved.items()):
+                bad = {"saved": saved, "table_before_load": other, "table_after_load": b.dhcp_dict}
+            if bad and len(fails) < 5:
+                fails.append(bad)
+    finally:
+        try:
+            os.remove(path)
+        except OSError:
+            pass
+        os.rmdir(tmp)
+    return {"name": "dhcp_json_roundtrip", "bound": "1500 seeded-random pairs of D-tables (0..6 leases each), load into empty and into changed tables",
+            "evaluations": n, "failures": fails}
